@@ -2,10 +2,18 @@ package props
 
 import (
 	"fmt"
+	"go/ast"
+	"go/parser"
+	"go/token"
 	"io"
 	"net"
 	"os"
+	"path/filepath"
+	"regexp"
+	"sort"
+	"strconv"
 	"strings"
+	"sync"
 	"testing"
 	"time"
 
@@ -248,6 +256,67 @@ func flat(bs []obs.Hex) []byte {
 var ztpStrings = []string{"Arista;DCS-7050;01.23;SN1", "Arista;", "Cisco;a", "ZPESystems:NSC:001", "ZPESystems:", "NVOS##MSN##SN", "NVOS##", "1271-23422Z11-123", "1271", "1271-",
 	"SN:0;PID:R1", "SN;PID", "SN:0;PID", "Ethernet1:2", "Ethernet1/2/3", "Ethernet", "Juniper-ptx1000-DD576", "Juniper-", "Juniper-a", "ZPESystems:NSC:", "Cisco Systems, Inc."}
 
+// ztpDict is the dictionary of vendor strings planted where the helper packages look: the hand-written list above
+// plus every short string literal found in the helper packages' own (non-test) source files at check time and the
+// decimal enterprise numbers of iana/entid.go — the same idea as a fuzzer dictionary, so that a vendor branch added
+// to a parser is reached without the harness knowing its spelling. Each literal also gets a few continuations
+// (separators the parsers split on) so that "prefix only" and "prefix + fields" are both present.
+var ztpDictOnce sync.Once
+var ztpDictV []string
+
+func ztpDict() []string {
+	ztpDictOnce.Do(func() {
+		seen := map[string]bool{}
+		add := func(s string) {
+			if len(s) >= 2 && len(s) <= 40 && !seen[s] {
+				seen[s] = true
+				ztpDictV = append(ztpDictV, s)
+			}
+		}
+		for _, s := range ztpStrings {
+			add(s)
+		}
+		var lits []string
+		for _, dir := range []string{"dhcpv4/ztpv4", "dhcpv6/ztpv6", "netboot"} {
+			files, _ := filepath.Glob(filepath.Join(repoDir(), dir, "*.go"))
+			sort.Strings(files)
+			for _, fn := range files {
+				if strings.HasSuffix(fn, "_test.go") {
+					continue
+				}
+				fset := token.NewFileSet()
+				f, err := parser.ParseFile(fset, fn, nil, 0)
+				if err != nil {
+					continue
+				}
+				ast.Inspect(f, func(n ast.Node) bool {
+					if _, ok := n.(*ast.ImportSpec); ok {
+						return false
+					}
+					if bl, ok := n.(*ast.BasicLit); ok && bl.Kind == token.STRING {
+						if v, err := strconv.Unquote(bl.Value); err == nil && len(v) >= 2 && len(v) <= 24 && !strings.ContainsAny(v, "%\n ") {
+							lits = append(lits, v)
+						}
+					}
+					return true
+				})
+			}
+		}
+		if b, err := os.ReadFile(filepath.Join(repoDir(), "iana", "entid.go")); err == nil {
+			for _, m := range regexp.MustCompile(`EnterpriseID\s*=\s*(\d+)`).FindAllStringSubmatch(string(b), -1) {
+				lits = append(lits, m[1])
+			}
+		}
+		for _, l := range lits {
+			add(l)
+			for _, tail := range []string{"a", "-a-b", ":a:b", ";a;b;c", "##a##b", "-", ":"} {
+				add(l + tail)
+			}
+		}
+	})
+	return ztpDictV
+}
+
 func genC03() *rapid.Generator[c03Case] {
 	return rapid.Custom(func(t *rapid.T) c03Case {
 		entry := rapid.SampledFrom(c03Entries).Draw(t, "entry")
@@ -256,7 +325,7 @@ func genC03() *rapid.Generator[c03Case] {
 			b := []byte(genV6Wire(v6Cfg(4, 10, false)).Draw(t, "v6"))
 			if rapid.IntRange(0, 3).Draw(t, "ztp") == 0 {
 				// plant vendor strings where the ZTP helpers look (vendor class data, vendor opts, remote id, interface id)
-				s := rapid.SampledFrom(ztpStrings).Draw(t, "ztpstr")
+				s := rapid.SampledFrom(ztpDict()).Draw(t, "ztpstr")
 				ent := rapid.SampledFrom([][]byte{{0, 0, 4, 0xf7}, {0, 0, 0x81, 0x19}, {0, 0, 0, 9}, {0, 0, 0x75, 0x6a}}).Draw(t, "ent")
 				vc := append(append([]byte{0, 16, 0, byte(6 + len(s))}, ent...), 0, byte(len(s)))
 				vc = append(vc, s...)
@@ -299,7 +368,7 @@ func genC03() *rapid.Generator[c03Case] {
 				c.B = v4(4)
 				if rapid.IntRange(0, 3).Draw(t, "ztp4") == 0 && len(c.B) > 244 {
 					// vendor strings for ztpv4: class identifier (60), VIVC (124), relay agent circuit id
-					s := rapid.SampledFrom(ztpStrings).Draw(t, "ztpstr")
+					s := rapid.SampledFrom(ztpDict()).Draw(t, "ztpstr")
 					opt := append([]byte{60, byte(len(s))}, s...)
 					viv := append([]byte{124, byte(5 + len(s)), 0, 0, 0, 9, byte(len(s))}, s...)
 					rai := append([]byte{82, byte(2 + len(s)), 1, byte(len(s))}, s...)
@@ -422,7 +491,7 @@ func TestC03_Truncations(t *testing.T) {
 // carrier option, on plain and relay-encapsulated messages; netboot conversations of every type subset.
 func TestC03_HelperMatrix(t *testing.T) {
 	ents := [][]byte{{0, 0, 4, 0xf7}, {0, 0, 0x81, 0x19}, {0, 0, 0, 9}, {0, 0, 0x75, 0x6a}, {0, 0, 0x0a, 0x4c}, {0, 0, 0, 0}}
-	for _, s := range ztpStrings {
+	for _, s := range ztpDict() {
 		for _, ent := range ents {
 			vc := append(append([]byte{0, 16, 0, byte(6 + len(s))}, ent...), 0, byte(len(s)))
 			vc = append(vc, s...)
@@ -453,6 +522,21 @@ func TestC03_HelperMatrix(t *testing.T) {
 		} {
 			p := append(append(v4Prefix(), ins...), 53, 1, 2, 1, 4, 255, 255, 255, 0, 3, 4, 10, 0, 0, 1, 255)
 			c03.one(t, c03Case{Entry: "v4", B: p})
+		}
+		// the class identifier together with every shape of the companion options the parsers fall back to
+		// (client identifier 61, host name 12): absent, present but empty, one octet, a short text
+		shapes := [][]byte{nil, {}, {0}, []byte("ab")}
+		for _, cid := range shapes {
+			for _, hn := range shapes {
+				p := append(v4Prefix(), append([]byte{60, byte(len(s))}, s...)...)
+				if cid != nil {
+					p = append(append(p, 61, byte(len(cid))), cid...)
+				}
+				if hn != nil {
+					p = append(append(p, 12, byte(len(hn))), hn...)
+				}
+				c03.one(t, c03Case{Entry: "v4", B: append(p, 53, 1, 1, 255)})
+			}
 		}
 	}
 	// netboot: every subset / order of {ADVERTISE, REPLY, SOLICIT} with and without IA_NA and boot file URL
